@@ -14,11 +14,14 @@ import (
 // client reports for a version added earlier. Decided:
 //
 //	(A) every path from the entry to a store of the version into the client's
-//	    list passes a store of AttrSet.Clone() back into the version, or the
-//	    true edge of an Empty() test of that attribute set;
-//	(B) the slice stored as the version's requirements has the Type of its
-//	    elements replaced by Clone() results in a loop that runs before the
-//	    store.
+//	    list passes a store of AttrSet.Clone() back into the version;
+//	(B) the slice stored as the version's requirements has the Type of every
+//	    element replaced by a Clone() result, unconditionally, in a loop that
+//	    runs before the store.
+//
+// No "only when non-empty" shortcut is accepted: Empty()/IsRegular() look at
+// the length of the map, and a set that is empty but already owns a map (the
+// Clone of an empty set used to be one) would stay shared.
 func argMapsCopiedRule(r *Report, p *Prog, rule string) {
 	f := p.lookupFn("(*resolve.LocalClient).AddVersion")
 	if f == nil {
@@ -67,18 +70,6 @@ func argMapsCopiedRule(r *Report, p *Prog, rule string) {
 			_, toIndex := st.Addr.(*ssa.IndexAddr)
 			return toIndex
 		}
-		emptyTrueEdge := func(b *ssa.BasicBlock, succ int) bool {
-			ifi, ok := b.Instrs[len(b.Instrs)-1].(*ssa.If)
-			if !ok || succ != 0 {
-				return false
-			}
-			c, ok := ifi.Cond.(*ssa.Call)
-			if !ok || c.Common().StaticCallee() == nil || c.Common().StaticCallee().Name() != "Empty" || len(c.Common().Args) != 1 {
-				return false
-			}
-			ld, ok := c.Common().Args[0].(*ssa.UnOp)
-			return ok && isAttrAddr(ld.X)
-		}
 		type st struct {
 			b    *ssa.BasicBlock
 			pass bool
@@ -104,8 +95,8 @@ func argMapsCopiedRule(r *Report, p *Prog, rule string) {
 					}
 				}
 			}
-			for i, s := range b.Succs {
-				walk(s, pass || emptyTrueEdge(b, i))
+			for _, s := range b.Succs {
+				walk(s, pass)
 			}
 		}
 		walk(f.Blocks[0], false)
@@ -115,7 +106,7 @@ func argMapsCopiedRule(r *Report, p *Prog, rule string) {
 		case retains == 0:
 			r.bad(rule, keyA, p.pos(f.Pos()), "no store of the version into the client's list found: anchor lost")
 		default:
-			r.ok(rule, keyA, p.pos(f.Pos()), "every store of the version follows AttrSet.Clone() or an Empty() test")
+			r.ok(rule, keyA, p.pos(f.Pos()), "every store of the version follows AttrSet.Clone()")
 		}
 	}
 	// (B)
@@ -152,7 +143,18 @@ func argMapsCopiedRule(r *Report, p *Prog, rule string) {
 				continue
 			}
 			if l := innermostLoop(loops, b); l != nil && l.header.Dominates(upd.Block()) {
-				cloned = true
+				// unconditional in the loop: the store dominates every back edge
+				every := true
+				for bb := range l.body {
+					for _, s := range bb.Succs {
+						if s == l.header && !b.Dominates(bb) {
+							every = false
+						}
+					}
+				}
+				if every {
+					cloned = true
+				}
 			}
 		}
 	}
